@@ -231,6 +231,7 @@ func runCheck(repo, verif, prop, tier string, seed int) int {
 	lemmaObls, lemmaNames := e.lemmaObligations(prop)
 	all = append(all, lemmaObls...)
 	all = append(all, e.immutableObligations(prop)...)
+	all = append(all, e.atomicObligations(prop)...)
 	e.dischargeAll(all, vcdir, timeout, thorough)
 
 	// verdicts
@@ -835,4 +836,83 @@ func allClaimedElsewhere(tags []string, claimed map[string]bool) bool {
 		}
 	}
 	return true
+}
+
+// atomicObligations: fields declared `atomic` are touched only through sync/atomic (as &x.f arguments).
+func (e *Engine) atomicObligations(prop string) []*Oblig {
+	var out []*Oblig
+	for _, a := range atomics {
+		if !hasTag(a.Tags, prop) {
+			continue
+		}
+		t := e.typeByName(a.Type)
+		var st *types.Struct
+		if t != nil {
+			st, _ = t.Underlying().(*types.Struct)
+		}
+		for _, fname := range a.Fields {
+			o := &Oblig{Name: "atomic:" + a.Type + "." + fname + "(accessed only through sync/atomic)", Kind: "static", Func: a.Type,
+				Verdict: "unsat", Solver: "go/types scan", Pos: token.Position{Filename: a.File, Line: a.Line}, Tags: a.Tags}
+			var fv *types.Var
+			if st != nil {
+				for i := 0; i < st.NumFields(); i++ {
+					if st.Field(i).Name() == fname {
+						fv = st.Field(i)
+					}
+				}
+			}
+			if fv == nil {
+				o.Verdict, o.Output = "error", "no such field"
+				out = append(out, o)
+				continue
+			}
+			for _, p := range e.pkgs {
+				for _, f := range p.Syntax {
+					if strings.HasSuffix(p.Fset.Position(f.Pos()).Filename, "_test.go") {
+						continue
+					}
+					// selector occurrences that are operands of & inside a call to sync/atomic are fine
+					ok := map[*ast.SelectorExpr]bool{}
+					ast.Inspect(f, func(n ast.Node) bool {
+						call, isCall := n.(*ast.CallExpr)
+						if !isCall {
+							return true
+						}
+						se, isSel := call.Fun.(*ast.SelectorExpr)
+						if !isSel {
+							return true
+						}
+						fo, _ := p.TypesInfo.Uses[se.Sel].(*types.Func)
+						if fo == nil || fo.Pkg() == nil || fo.Pkg().Path() != "sync/atomic" {
+							return true
+						}
+						for _, arg := range call.Args {
+							if u, isU := unparen(arg).(*ast.UnaryExpr); isU && u.Op == token.AND {
+								if fs, isF := unparen(u.X).(*ast.SelectorExpr); isF {
+									ok[fs] = true
+								}
+							}
+						}
+						return true
+					})
+					ast.Inspect(f, func(n ast.Node) bool {
+						if fs, isF := n.(*ast.SelectorExpr); isF && p.TypesInfo.Uses[fs.Sel] == fv && !ok[fs] && o.Verdict == "unsat" {
+							pos := p.Fset.Position(fs.Pos())
+							o.Verdict = "sat"
+							o.Output = "plain access at " + shortFile(pos.Filename) + ":" + fmt.Sprint(pos.Line)
+							o.Pos = pos
+						}
+						if kv, isKV := n.(*ast.KeyValueExpr); isKV {
+							if id, isID := kv.Key.(*ast.Ident); isID && p.TypesInfo.Uses[id] == fv {
+								_ = id // initialisation in a composite literal happens before the object is shared
+							}
+						}
+						return true
+					})
+				}
+			}
+			out = append(out, o)
+		}
+	}
+	return out
 }
